@@ -76,6 +76,7 @@ ITER_MAKERS = [
     r"^std::collections::BTreeMap::<K, V, A>::iter$",
     r"^std::collections::BTreeMap::<K, V, A>::keys$",
     r"^std::collections::btree_map::BTreeMap::<K, V, A>::(values|iter|keys)$",
+    r"^std::option::Option::<T>::iter$",       # at most one item: the payload
     r"^std::iter::Iterator::cloned$",
     r"^std::iter::Iterator::copied$",
     r"^std::iter::Iterator::peekable$",
@@ -84,10 +85,25 @@ ITER_MAKERS = [
     r"^(std|core)::str::<impl str>::char_indices$",
 ]
 _ITER_MAKERS = [re.compile(x) for x in ITER_MAKERS]
+ITER_HEADS = ("iter", "enum", "rev", "adapt", "zip", "chain", "cycle_iter")
 
 
 def strip_crate(name, crate=None):
     return name
+
+
+def elem_of(a):
+    """The item an iterator term yields."""
+    while a[0] == "adapt":
+        a = a[2]
+    if a[0] == "iter":
+        return ("elem", a[1])
+    if a[0] == "enum":
+        return ("enumitem", a[1])
+    if a[0] == "rev":
+        inner = a[1]
+        return ("elem", inner[1] if inner[0] == "iter" else inner)
+    return ("elem", a)
 
 
 def is_transparent(callee):
@@ -253,6 +269,8 @@ class Origins:
             # a captured value read back out of a closure value built in this body (spliced closure bodies)
             sub = t[2][int(label)]
             return ("oneof", sub) if len(sub) != 1 else next(iter(sub))
+        if t[0] == "elem" and len(t) == 2 and isinstance(t[1], tuple) and t[1] and t[1][0] == "zip" and label in ("0", "1"):
+            return elem_of(t[1][1 + int(label)])
         if t[0] == "enumitem":
             if label == "1":
                 return ("elem", t[1])
@@ -375,7 +393,7 @@ class Origins:
             # skip(n), cloned() keep the base
             out = set()
             for a in first():
-                if a[0] in ("iter", "enum", "rev", "adapt"):
+                if a[0] in ITER_HEADS:
                     out.add(a)
                 else:
                     out.add(("iter", a))
@@ -385,25 +403,17 @@ class Origins:
             name = callee.split("::")[-1]
             arg = frozenset(A[1]) if len(A) > 1 else frozenset()
             return {("adapt", name, a, arg) for a in first()}
+        if callee in ("std::iter::Iterator::zip", "std::iter::Iterator::chain") and len(A) == 2:
+            head = callee.split("::")[-1]
+            return {(head, a, b if b[0] in ITER_HEADS else ("iter", b)) for a in A[0] for b in A[1]}
+        if callee == "std::iter::Iterator::cycle":
+            return {("cycle_iter", a) for a in first()}
         if callee == "std::iter::Iterator::enumerate":
             return {("enum", a[1] if a[0] == "iter" else a) for a in first()}
         if callee in ("std::iter::Iterator::rev",):
             return {("rev", a) for a in first()}
         if callee in ("std::iter::Iterator::next", "std::iter::DoubleEndedIterator::next_back"):
-            out = set()
-            for a in first():
-                while a[0] == "adapt":
-                    a = a[2]
-                if a[0] == "iter":
-                    out.add(("elem", a[1]))
-                elif a[0] == "enum":
-                    out.add(("enumitem", a[1]))
-                elif a[0] == "rev":
-                    inner = a[1]
-                    out.add(("elem", inner[1] if inner[0] == "iter" else inner))
-                else:
-                    out.add(("elem", a))
-            return out
+            return {elem_of(a) for a in first()}
         if callee in ("std::ops::Index::index", "std::ops::IndexMut::index_mut"):
             ks = A[1] if len(A) > 1 else set()
             kc = [k[1] for k in ks if k[0] == "const" and isinstance(k[1], int)]
@@ -474,6 +484,22 @@ def getter_summary(lib, name):
     return t
 
 
+def simplify(t):
+    """Re-apply the projection rules of Origins._field inside a term (after a substitution put a structured term under a
+    field projection)."""
+    if isinstance(t, frozenset):
+        return frozenset(simplify(x) for x in t)
+    if not isinstance(t, tuple) or not t:
+        return t
+    if t[0] == "field" and len(t) == 3:
+        inner = simplify(t[1])
+        r = Origins._field(None, inner, t[2])
+        if isinstance(r, tuple) and r and r[0] == "oneof":
+            return r
+        return r
+    return tuple(simplify(x) if isinstance(x, (tuple, frozenset)) else x for x in t)
+
+
 def term_mentions(t, pred):
     """True if any sub-term satisfies pred."""
     if isinstance(t, (frozenset, set, list)):
@@ -509,8 +535,10 @@ def fmt_term(t, depth=0):
         return f"{fmt_term(t[1], depth+1)}[{ix}]"
     if h == "adapt":
         return f"{fmt_term(t[2], depth+1)}.{t[1]}({'|'.join(sorted(fmt_term(x, depth+1) for x in t[3]))})"
-    if h in ("iter", "elem", "enum", "index", "rev", "len", "discr", "enumitem"):
+    if h in ("iter", "elem", "enum", "index", "rev", "len", "discr", "enumitem", "cycle_iter") and len(t) == 2:
         return f"{h}({fmt_term(t[1], depth+1)})"
+    if h in ("zip", "chain"):
+        return f"{h}({fmt_term(t[1], depth+1)}, {fmt_term(t[2], depth+1)})"
     if h == "agg":
         args = ", ".join("|".join(sorted(fmt_term(x, depth + 1) for x in a)) for a in t[2])
         return f"{t[1].split('::', 1)[-1] if '::' in t[1] else t[1]}{{{args}}}"
